@@ -57,7 +57,21 @@ class BearingEdge(BaseEdge):
         return np.zeros(1)
 
 
+class RobustOdometry(EdgeOdometry):
+    """a user subclass of a built-in class: same fields, another type"""
+
+
+class WideLandmark(EdgeLandmark):
+    """a user subclass of EdgeLandmark"""
+
+
+class LongRangeEdge(RangeEdge):
+    """a user subclass of a custom class"""
+
+
 EDGES = {"EdgeOdometry": EdgeOdometry, "EdgeLandmark": EdgeLandmark, "RangeEdge": RangeEdge, "BearingEdge": BearingEdge}
+SUBCLASS = {"EdgeOdometry": "RobustOdometry", "EdgeLandmark": "WideLandmark", "RangeEdge": "LongRangeEdge"}
+EDGES_ALL = dict(EDGES, RobustOdometry=RobustOdometry, WideLandmark=WideLandmark, LongRangeEdge=LongRangeEdge)
 
 # ---------------------------------------------------------------------------------------------------------------------
 # JSON-able descriptions  <->  real objects
@@ -88,8 +102,8 @@ def b_vertex(d):
 
 def b_edge(d):
     info = np.array(d["info"]["vals"], dtype=np.float64).reshape(d["info"]["shape"])
-    cls = EDGES[d["cls"]]
-    if d["cls"] == "EdgeLandmark":
+    cls = EDGES_ALL[d["cls"]]
+    if d["cls"] in ("EdgeLandmark", "WideLandmark"):
         return cls(list(d["ids"]), info, b_value(d["estimate"]), b_value(d["offset"]), offset_id=d["offset_id"])
     return cls(list(d["ids"]), info, b_value(d["estimate"]))
 
@@ -233,6 +247,9 @@ def discrete_variants(d, rng):
         out.append(("edge-id-count-more", dict(d, ids=ids + [ids[-1]])))
         if len(ids) > 1:
             out.append(("edge-id-count-less", dict(d, ids=ids[:-1])))
+        if d["cls"] in SUBCLASS:
+            # a subclass instance with identical fields is an edge of another type (asked in both directions)
+            out.append(("edge-subclass", dict(d, cls=SUBCLASS[d["cls"]])))
         n = d["info"]["shape"][0]
         out.append(("edge-info-shape", dict(d, info=dict(t="array", shape=[n * n], vals=d["info"]["vals"]))))
         out.append(("edge-info-shape-bigger", dict(d, info=dict(t="array", shape=[n + 1, n + 1], vals=d["info"]["vals"] + [0.0] * ((n + 1) ** 2 - n * n)))))
